@@ -7,3 +7,6 @@ export CARGO_NET_OFFLINE=true
 (cd crates/replay && cargo build --release --offline --target-dir /verif/target/replay 2>&1 | tail -2)
 python3-vt symx/prep.py > /dev/null
 echo setup ok
+# warm the Kani build of the generated-code crate (proc-macro + o2o built by the host cargo)
+(cd kgen/tmpl && CARGO_NET_OFFLINE=true cargo kani --target-dir /verif/target/kani --output-format terse >/dev/null 2>&1 || true)
+echo setup done
